@@ -173,6 +173,10 @@ def gen_case(rng, big=False):
     stokes = None
     if wf in ('matrix', 'scalar-stokes'):
         stokes = [1.0, _dy(rng, -1 / 2, 1 / 2, 3), _dy(rng, -1 / 2, 1 / 2, 3), _dy(rng, -1 / 2, 1 / 2, 3)]
+        if rng.random() < 0.12:
+            # degree of polarisation > 1 (not a physical Stokes vector): Wavefront.I is then an indefinite form, passivity
+            # is not claimed (stokes_power_unphysical_counterexample); only the I polynomial and the other clauses are checked
+            stokes = [0.5, [1.0, -1.0][int(rng.integers(0, 2))], _dy(rng, -1 / 2, 1 / 2, 3), _dy(rng, -1, 1, 3)]
     zero = [-dx * (nx - 1) / 2, -dy * (ny - 1) / 2]
     if rng.random() < 0.2:
         zero = [_dy(rng, -1, 1, 4), _dy(rng, -1, 1, 4)]
@@ -335,7 +339,9 @@ def oracle_case(case, observe=None):
         pre = 'angular-evanescent-corner ' if evan else ''
         wfx = make_wavefront(case, x.copy())
         p_in, p_out = float(wfx.total_power), float(fx.total_power)
-        if not p_out <= p_in * (1 + TOL) + TOL:
+        sv = [Fraction(v) for v in case['stokes']] if case['stokes'] is not None else [1, 0, 0, 0]
+        physical = sv[0] >= 0 and sv[1] ** 2 + sv[2] ** 2 + sv[3] ** 2 <= sv[0] ** 2
+        if physical and not p_out <= p_in * (1 + TOL) + TOL:
             bad.append((pre + 'power-increase ' + tag, 'total power %r -> %r in the adequately sampled regime (z=%r)' % (p_in, p_out, z)))
         pm = build_prop(case, grid, -z)
         fm = np.asarray(pm.forward(make_wavefront(case, x.copy())).electric_field)
@@ -344,7 +350,7 @@ def oracle_case(case, observe=None):
         if not d <= TOL * max(1.0, float(np.abs(bx).max())):
             bad.append((pre + 'neg-z ' + tag, 'forward(-z) differs from backward(+z) by %.3g (z=%r)' % (d, z)))
         if unpadded(case):
-            if not abs(p_out - p_in) <= TOL * max(1.0, p_in):
+            if not abs(p_out - p_in) <= TOL * max(1.0, abs(p_in)):
                 bad.append(('unitary ' + tag, 'power %r -> %r with zero_padding=1, num_oversampling=1' % (p_in, p_out)))
             back = np.asarray(prop.backward(fx).electric_field)
             d = float(np.abs(back - ex).max())
